@@ -168,6 +168,23 @@ fn eval(ctx: &Ctx, case: &Case) -> Verdict {
             }
         }
     }
+    // the environment: locale, time zone, logging variables, HOME, a different working directory
+    {
+        let envs: [&[(&str, &str)]; 4] = [
+            &[("LC_ALL", "tr_TR.UTF-8"), ("LANG", "tr_TR.UTF-8"), ("TZ", "Pacific/Kiritimati")],
+            &[("RUST_LOG", "trace"), ("NO_COLOR", "1"), ("TERM", "dumb")],
+            &[("HOME", "/nonexistent"), ("COLUMNS", "1"), ("RUST_MIN_STACK", "8388608")],
+            &[("LC_NUMERIC", "de_DE.UTF-8"), ("LANGUAGE", "de"), ("CLICOLOR_FORCE", "1")],
+        ];
+        let ci = pick_idx(case.draws[7], 4);
+        let name = format!("c12.{}", containers[ci].ext());
+        std::fs::write(dir.join(&name), &rendered[ci].0).expect("write");
+        for env in envs {
+            let argv = crate::props::common::create_argv(&case.cs, &base_opts, Some(&name), "c12.samples");
+            let run = cli::run_bin(ctx, &ctx.sfs_bin, &argv, cli::Input::Null, &dir, env);
+            compare(run, format!("{} by path with environment {env:?}", containers[ci].label()))?;
+        }
+    }
     let blocks = rendered[1].1.max(rendered[2].1);
     let (r, _) = reference.as_ref().unwrap();
     let mut pass = Pass::new().nontrivial(blocks >= 3);
@@ -192,7 +209,7 @@ fn eval(ctx: &Ctx, case: &Case) -> Verdict {
 pub fn check(ctx: &Ctx) -> Check {
     let parts: Vec<Box<dyn Part>> = vec![Box::new(RandomPart {
         name: "containers-transports-threads",
-        rule: "diploid call sets (incl. large cohorts of 120..400 samples so that 64 KiB blocks occur, and ~12% call sets that make the run fail) rendered as vcf / bgzf-vcf / bgzf-bcf / raw bcf with generated BGZF layouts (one line per block, 1-byte blocks, cuts inside lines and BCF records, 64 KiB payloads, stored/compressed, empty blocks first/middle/last, with and without EOF marker) x {path, stdin from file, stdin from pipe} x --threads from {1,2,3,4,8,16} x repeated executions; >=3 populations of unequal size: ALL executions of a case must have byte-identical stdout and equal exit status (~20 executions per case); non-trivial = an input of >=3 BGZF blocks",
+        rule: "diploid call sets (incl. large cohorts of 120..400 samples so that 64 KiB blocks occur, and ~12% call sets that make the run fail) rendered as vcf / bgzf-vcf / bgzf-bcf / raw bcf with generated BGZF layouts (one line per block, 1-byte blocks, cuts inside lines and BCF records, 64 KiB payloads, stored/compressed, empty blocks first/middle/last, with and without EOF marker) x {path, stdin from file, stdin from pipe} x --threads from {1,2,3,4,8,16} x repeated executions x four environments (Turkish/German locale, exotic time zone, RUST_LOG=trace, HOME unset-like, forced colour); >=3 populations of unequal size: ALL executions of a case must have byte-identical stdout and equal exit status (~20 executions per case); non-trivial = an input of >=3 BGZF blocks",
         cases: ctx.tier.pick(120, 3000),
         strategy: Box::new(|| strategy().boxed()),
         eval: Box::new(eval),
